@@ -77,8 +77,9 @@ CONTRACTS = [
     "np.kaiser(L+1, beta)[:-1] is the DFT-even Kaiser window n -> I0(beta*sqrt(1-((n-L/2)/(L/2))^2))/I0(beta): NumPy's I0 is compared each run "
     "with the model's 80-term power series to 1e-12 (correspondence op `kaiser`)",
     "np.round is round-half-to-even, Python round() on a float is round-half-to-even, round_half_up(v) = floor(v + 1/2)",
-    "_build_Q returns an orthonormal basis of the polynomials of degree <= order on the L-point grid (C01's contract; "
-    "the oracle's reference builds its own basis)",
+    "_build_Q is TRANSLATED (region BuildQ) and proved to return min(L, order+1) orthonormal columns spanning the polynomials of degree < min(L, order+1) "
+    "on the L-point grid; its one external ingredient is np.linalg.qr(mode='reduced') = Gram-Schmidt up to column signs (Np.qrReducedQ); "
+    "the oracle's reference builds its own basis",
     # contracts of the translated region LpsdCore (lean/SpecKitV/Np/LpsdCore.lean; definitions, exercised by the genlpsdcore / gensinglebin /
     # genplanvalidate / genplanband runs against the real code)
     "Python dict used as a cache ({} / k in d / d[k] / d.get(k) / d[k] = v) = association list read with Model.lookup, newest entry first "
@@ -87,7 +88,8 @@ CONTRACTS = [
     "m.any() / np.any(m) (NpLC.any); a[mask] = elements at the True positions in order (NpLC.maskSelect); [d for d, keep in zip(l, mask) if keep] "
     "(NpLC.zipFilter); np.isfinite(x) = (x - x == 0) (NpLC.isfinite)",
     "np.kaiser(M, beta) / scipy.signal.windows.kaiser(M, beta) = I0(beta*sqrt(1-((n-(M-1)/2)/((M-1)/2))^2))/I0(beta), n < M (NpLC.kaiser; used only in "
-    "lpsdWindow_kaiser*); the window callable itself, _build_Q and _select_backend are PARAMETERS of the translated code (NpLC.WinFunc, functions)",
+    "lpsdWindow_kaiser*); the window callable is a PARAMETER of the translated code (NpLC.WinFunc); _build_Q and _select_backend are parameters of the translated "
+    "loop that Props/PipelineClosed instantiates with their own translations",
     "the 18 kernel entry points are fields of NpLC.KernelFamily named as in the source; which names serve which backend string is NpLC.KernelFamily.pick "
     "('cuda' -> *_cuda, 'numba' -> plain, otherwise *_np); in the *_all_backends theorems all 18 names are translated code: the "
     "`_np` names are the translated NumPy fallbacks (Gen/NumpyKernels) called with the default `_chunk` of their Python signature (taken from the generated "
